@@ -4,6 +4,7 @@ import BctVerif.Lemmas.BetweenBrandes
 import BctVerif.Lemmas.BetweenFwd5
 import BctVerif.Lemmas.BetweenBfs2
 import BctVerif.Lemmas.BetweenBin3
+import BctVerif.Lemmas.BetweenRat
 
 /-!
 # C08 — betweenness counts exactly the shortest paths through each node and connection
@@ -275,6 +276,97 @@ theorem back_propagation_correct (s : Fin n) (st : SrcSt n) (hf : FwdPN L s st)
   exact backOuter_spec L s st hf ql [] a hnd List.nodup_nil (fun _ _ => by simp) hs hord
     (fun x => by simp [hDP x])
 
+/-- on 0/1 input the weighted and the binary edge routine models return the same pair, and the
+binary node routine model returns its node component (C10 uses this) -/
+theorem wei_eq_bin_on_binary (hbin : ∀ i j, L.get i j ≤ 1) (hdiag : ∀ i, L.get i i = 0) :
+    brandes true L = brandes false L ∧ (brandes true L).map Prod.snd = betweennessBin L := by
+  rw [brandes_wei_correct, edge_betweenness_bin_correct L hbin, betweennessBin_correct L hbin hdiag]
+  exact ⟨rfl, rfl⟩
+
+/-! ## (6) rational ("positive real given exactly") lengths and scaling
+
+The models run on natural-number length matrices.  A rational length matrix `ℓ` is given by its
+numerators `L` over a common denominator `den > 0` (`lenQ L den i j = L i j / den`; every finite
+rational matrix has this form).  Its minimum-length walks are those of `L`, so the definition-level
+betweenness with respect to `ℓ` is `bcSpec L` / `ebcSpec L` — which the weighted models return by
+`brandes_wei_correct`.  The driver's `den=` token relies on exactly this. -/
+
+theorem rational_min_walks (den : ℕ) (hden : 0 < den) (s t : Fin n) (p : List (Fin n)) :
+    IsMinQ (lenQ L den) s t p ↔ p ∈ MinW L s t :=
+  isMinQ_iff hden s t p
+
+theorem reach_iff_walkQ (den : ℕ) (hden : 0 < den) (s t : Fin n) :
+    reach (dist L) s t = true ↔ ∃ p, IsWalkQ (lenQ L den) s p ∧ wend s p = t := by
+  rw [reach_iff_walk]
+  constructor
+  · rintro ⟨p, hp, he⟩; exact ⟨p, (isWalkQ_iff hden s p).2 hp, he⟩
+  · rintro ⟨p, hp, he⟩; exact ⟨p, (isWalkQ_iff hden s p).1 hp, he⟩
+
+/-- node betweenness for the rational lengths `L / den`: the sum of the fractions of
+minimum-(rational-)length walks through `v` is `bcSpec` of the numerators -/
+theorem bc_spec_rational (den : ℕ) (hden : 0 < den) (v : Fin n) :
+    (bcSpec L)[v] = ∑ s, ∑ t,
+      if s ≠ t ∧ s ≠ v ∧ t ≠ v ∧ reach (dist L) s t = true then
+        (({p | IsMinQ (lenQ L den) s t p ∧ v ∈ s :: p} : Set (List (Fin n))).ncard : ℚ) /
+          (({p | IsMinQ (lenQ L den) s t p} : Set (List (Fin n))).ncard : ℚ) else 0 := by
+  rw [bc_spec]
+  refine Finset.sum_congr rfl fun s _ => Finset.sum_congr rfl fun t _ => ?_
+  have h1 : ({p | IsMinQ (lenQ L den) s t p ∧ v ∈ s :: p} : Set (List (Fin n))) = ThroughV L s t v := by
+    ext p; simp only [ThroughV, Set.mem_ofPred_eq, isMinQ_iff hden]
+  have h2 : ({p | IsMinQ (lenQ L den) s t p} : Set (List (Fin n))) = MinW L s t := by
+    ext p; simp only [MinW, Set.mem_ofPred_eq, isMinQ_iff hden]
+  rw [h1, h2]
+
+/-- edge betweenness for the rational lengths `L / den` -/
+theorem ebc_spec_rational (den : ℕ) (hden : 0 < den) (u w : Fin n) :
+    (ebcSpec L).get u w = ∑ s, ∑ t,
+      if s ≠ t ∧ reach (dist L) s t = true then
+        (({p | IsMinQ (lenQ L den) s t p ∧ ∃ p1 p2, p = p1 ++ w :: p2 ∧ wend s p1 = u} :
+            Set (List (Fin n))).ncard : ℚ) /
+          (({p | IsMinQ (lenQ L den) s t p} : Set (List (Fin n))).ncard : ℚ) else 0 := by
+  rw [ebc_spec]
+  refine Finset.sum_congr rfl fun s _ => Finset.sum_congr rfl fun t _ => ?_
+  have h1 : ({p | IsMinQ (lenQ L den) s t p ∧ ∃ p1 p2, p = p1 ++ w :: p2 ∧ wend s p1 = u} :
+      Set (List (Fin n))) = ThroughE L s t u w := by
+    ext p; simp only [ThroughE, Set.mem_ofPred_eq, isMinQ_iff hden]
+  have h2 : ({p | IsMinQ (lenQ L den) s t p} : Set (List (Fin n))) = MinW L s t := by
+    ext p; simp only [MinW, Set.mem_ofPred_eq, isMinQ_iff hden]
+  rw [h1, h2]
+
+/-- the weighted models on the numerators return the betweenness of the rational lengths -/
+theorem brandes_wei_rational (den : ℕ) (_hden : 0 < den) :
+    brandes true L = .ok (ebcSpec L, bcSpec L) := brandes_wei_correct L
+
+/-- betweenness is invariant under multiplying all lengths by a positive integer -/
+theorem scale_invariant (c : ℕ) (hc : 0 < c) :
+    bcSpec (scaleL c L) = bcSpec L ∧ ebcSpec (scaleL c L) = ebcSpec L := by
+  have hM : ∀ s t, MinW (scaleL c L) s t = MinW L s t := by
+    intro s t; ext p; simp only [MinW, Set.mem_ofPred_eq, isMin_scale hc]
+  have hR : ∀ s t, reach (dist (scaleL c L)) s t = reach (dist L) s t := by
+    intro s t
+    rw [Bool.eq_iff_iff, reach_iff_walk, reach_iff_walk]
+    constructor
+    · rintro ⟨p, hp, he⟩; exact ⟨p, (isWalk_scale hc s p).1 hp, he⟩
+    · rintro ⟨p, hp, he⟩; exact ⟨p, (isWalk_scale hc s p).2 hp, he⟩
+  constructor
+  · apply Vector.ext
+    intro v hv
+    have e1 := bc_spec (scaleL c L) ⟨v, hv⟩
+    have e2 := bc_spec L ⟨v, hv⟩
+    simp only [Fin.getElem_fin] at e1 e2
+    rw [e1, e2]
+    refine Finset.sum_congr rfl fun s _ => Finset.sum_congr rfl fun t _ => ?_
+    have hT : ThroughV (scaleL c L) s t ⟨v, hv⟩ = ThroughV L s t ⟨v, hv⟩ := by
+      ext p; simp only [ThroughV, Set.mem_ofPred_eq, isMin_scale hc]
+    rw [hT, hM, hR]
+  · apply AMat.ext_get
+    intro u w
+    rw [ebc_spec, ebc_spec]
+    refine Finset.sum_congr rfl fun s _ => Finset.sum_congr rfl fun t _ => ?_
+    have hT : ThroughE (scaleL c L) s t u w = ThroughE L s t u w := by
+      ext p; simp only [ThroughE, Set.mem_ofPred_eq, isMin_scale hc]
+    rw [hT, hM, hR]
+
 /-! ## non-vacuity: concrete inputs with ties, weights and unreachable pairs -/
 
 /-- `0→1→3`, `0→2→3`: two equal-length alternatives; nothing is reachable from `3` -/
@@ -333,5 +425,14 @@ example : (brandes false diamond).toOption.map (fun r => r.1.get 0 1) = some (3 
 example : (∀ i j, diamond.get i j ≤ 1) ∧ (∀ i, diamond.get i i = 0) := by decide
 example : (betweennessBin diamond).toOption.map (fun r => r[(2 : Fin 4)]) = some (1 / 2) := by decide +kernel
 example : wc diamond 2 0 3 = 2 ∧ (dist diamond).get 0 3 = some 2 := by decide
+
+-- rational lengths: `wtriangle / 2` has lengths 1/2, 1/2, 1 with the exact tie 1/2 + 1/2 = 1
+example : lenQ wtriangle 2 0 1 = 1 / 2 ∧ lenQ wtriangle 2 0 2 = 1 := by
+  constructor <;> (unfold lenQ; norm_num [wtriangle])
+example : IsMinQ (lenQ wtriangle 2) 0 2 [2] ∧ IsMinQ (lenQ wtriangle 2) 0 2 [1, 2] := by
+  constructor <;> rw [isMinQ_iff (by decide), isMin_iff_dist]
+  · exact ⟨⟨by decide, trivial⟩, rfl, by decide⟩
+  · exact ⟨⟨by decide, by decide, trivial⟩, rfl, by decide⟩
+example : (scaleL 3 wtriangle).get 0 2 = 6 := by decide
 
 end Bct.C08
